@@ -5,12 +5,15 @@ NAMES = ['bnd:C16.parse_equals_fresh', 'bnd:C16.parse.total']
 
 
 def run(report):
-    verify_keys(report, ['parso.cache._set_cache_item', 'parso.cache.load_module'])
+    verify_keys(report, ['parso.cache._set_cache_item', 'parso.cache.load_module', 'parso.cache._load_from_file_system'])
     report.assume("ghost environment of the cache VCs: cur_mtime(path) (the file's mtime now, only grows) and "
                   "ver_at(path, mtime) (content version; a function of mtime by the property's proviso); get_last_modified "
                   "returns cur_mtime; representation invariant of parser_cache is a precondition of load_module; that "
                   "try_to_save_module establishes it is NOT proved (it does not hold: known finding, read-then-stat race)",
-                  "_load_from_file_system is used through an assumed contract in load_module (disk branch bounded only)",
+                  "disk branch: _load_from_file_system is proved against a ghost file system (file_mtime, file_obj, path_of, "
+                  "hashed_path) through assumed contracts of os.path.getmtime / open / pickle.load / _get_hashed_path; DISK-INV "
+                  "(a cache file not older than the source mtime holds the tree of that source version) is a precondition, "
+                  "assumed of the writer try_to_save_module, not proved",
                   "A-DICTITER: iteration over a dict terminates; the filter of the GC dict comprehension is abstracted "
                   "(any subset of the entries may survive)")
     tier = report.tier
